@@ -105,6 +105,9 @@ def main():
         # the checks above rewrote evidence/<id>.json from runs on the CHANGED tree: the committed evidence describes the
         # unchanged tree, put it back
         sh(f"git -C {ROOT} checkout -- evidence")
+        # … and the generated Lean files were regenerated from the CHANGED tree: regenerate them from the restored one
+        sh(f"cd {ROOT} && .build/factgen -repo {SEED_REPO} -lean lean/Gws/Generated/Facts.lean -json .build/facts.json")
+        sh(f"cd {ROOT} && .build/gotrans -repo {SEED_REPO} -lean lean/Gws/Generated/Trans.lean -deque lean/Gws/Generated/TransDeque.lean")
     code, o = sh(f"git -C {SEED_REPO} status --porcelain")
     assert o.strip() == "", SEED_REPO + " not clean after undo:\n" + o
     fcntl.flock(lock, fcntl.LOCK_UN)
